@@ -93,7 +93,9 @@ def _dspec(r, name, n, form="array", weighted=False, mean=False):
         return {"form": "uniform", "low": v[0], "high": v[1], "n": n, "endpoint": bool(r.integers(2)), "ensemble_mean": mean}
     if form == "gaussian":
         v = _values(r, name, 2)
-        std = abs(v[0] - v[1]) / 4 + 1e-3 * (abs(v[0]) + 1e-3)
+        std = abs(v[0] - v[1]) / 8 + 1e-3 * (abs(v[0]) + 1e-3)
+        if name in ("angular_spread", "focal_spread", "semiangle_cutoff"):  # keep every sample positive
+            std = min(std, 0.1 * abs(v[0]))
         return {"form": "gaussian", "std": float(std), "center": v[0], "n": n, "limit": float(r.uniform(1.5, 3.0)),
                 "normalize": ["intensity", "amplitude"][int(r.integers(2))], "ensemble_mean": mean}
     s = {"form": form if not (weighted or mean) else "from_values", "values": _values(r, name, n), "ensemble_mean": mean}
@@ -135,7 +137,7 @@ def _ctf_case(r, names, forms=None, weighted=False, mean=None, family="ctf", cls
     params.update(extra or {})
     for i, nm in enumerate(names):
         f = (forms or FORMS)[int(r.integers(len(forms or FORMS)))]
-        params[nm] = _dspec(r, nm, lens[i], f, weighted=weighted, mean=mean[i])
+        params[nm] = _dspec(r, nm, lens[i], f, weighted=weighted and (mean[i] or not any(mean)), mean=mean[i])
     lz = int(r.integers(0, 4))
     return dict(family=family, cls=cls, soft=soft, params=params, stack=int([0, 0, 2][int(r.integers(3))]),
                 lazy=bool(lz), max_batch=["auto", "auto", 1, 2][lz], wave_seed=int(r.integers(1 << 30)),
@@ -161,19 +163,20 @@ def _tilt_spec(r, mode, lens, weighted=False, mean=False):
     return t
 
 
-def _scan_spec(r, kind, extent):
+def _scan_spec(r, kind, extent, small=False):
     if kind == "none":
         return {"mode": "single", "xy": [float(r.uniform(0, extent[0])), float(r.uniform(0, extent[1]))]}
     if kind == "list":
-        n = int(r.integers(2, 4))
+        n = 2 if small else int(r.integers(2, 4))
         return {"mode": "list", "xy": [[float(r.uniform(-2, extent[0] + 2)), float(r.uniform(0, extent[1]))] for _ in range(n)]}
     if kind == "line":
         return {"mode": "line", "start": [float(r.uniform(0, 3)), float(r.uniform(0, 3))],
-                "end": [float(r.uniform(3, extent[0])), float(r.uniform(3.5, extent[1]))], "gpts": int(r.integers(2, 5)),
+                "end": [float(r.uniform(3, extent[0])), float(r.uniform(3.5, extent[1]))], "gpts": int(r.integers(2, 3 if small else 5)),
                 "endpoint": bool(r.integers(2))}
     return {"mode": "grid", "start": [float(r.uniform(0, 2)), float(r.uniform(0, 2))],
             "end": [float(r.uniform(3, extent[0])), float(r.uniform(3, extent[1]))],
-            "gpts": [int(r.integers(1, 4)), int(r.integers(2, 4))], "endpoint": [bool(r.integers(2)), bool(r.integers(2))]}
+            "gpts": [int(r.integers(1, 3 if small else 4)), int(r.integers(2, 3 if small else 4))],
+            "endpoint": [bool(r.integers(2)), bool(r.integers(2))]}
 
 
 ABER_SETS = [[], ["defocus"], ["C30"], ["C12", "phi12"], ["Cs", "defocus"], ["coma"], ["C23", "C10"]]
@@ -189,6 +192,8 @@ def _probe_case(r, sel, weighted=False, mean=False, run=None):
     tmode = TILT_MODES[sel["tilt"]]
     k = len(names) + int(ap_dist) + {"scalar": 0, "xdist": 1, "ydist": 1, "xydist": 2, "pairs": 1}[tmode]
     lens = _lengths(r, max(k, 1) + 1)
+    if k >= 3:  # keep the number of members (and scalar reference runs) small
+        lens = [2 + int(i == int(r.integers(k))) for i in range(k + 1)]
     params = dict(_companions(names))
     for i, nm in enumerate(names):
         params[nm] = _dspec(r, nm, lens[i], FORMS[int(r.integers(3))], weighted=weighted, mean=mean)
@@ -200,7 +205,7 @@ def _probe_case(r, sel, weighted=False, mean=False, run=None):
     lazy, mb = LAZY[sel["lazy"]]
     run = run or (["build", "multislice"][sel["run"]] if tmode == "scalar" else "multislice")
     return dict(family="probe", params=params, soft=bool(sel["soft"]), tilt=_tilt_spec(r, tmode, tl + tl, weighted, mean),
-                scan=_scan_spec(r, SCANS[sel["scan"]], g["extent"]), run=run, lazy=lazy, max_batch=mb,
+                scan=_scan_spec(r, SCANS[sel["scan"]], g["extent"], small=k >= 2), run=run, lazy=lazy, max_batch=mb,
                 atoms=["si", "two", "random"][int(r.integers(3))], atoms_seed=int(r.integers(1000)),
                 height=float(r.uniform(4.0, 9.0)), slice_thickness=float(r.uniform(1.5, 3.0)),
                 weighted=weighted, averaged=mean, **g)
@@ -247,7 +252,7 @@ def cases(tier, seed):
                 extra.pop(nm, None)
             yield _ctf_case(r, nms, family="transform", cls=cls, soft=soft, extra=extra)
     # (c) Probe ensembles
-    paxes = dict(aber=list(range(len(ABER_SETS))), aperture=[0, 1], tilt=list(range(len(TILT_MODES))), scan=list(range(len(SCANS))),
+    paxes = dict(aber=[0, 0, 0] + list(range(1, len(ABER_SETS))), aperture=[0, 1], tilt=[0, 0, 0, 1, 2, 3, 4], scan=list(range(len(SCANS))),
                  lazy=list(range(len(LAZY))), run=[0, 1], soft=[1, 1, 0])
     k = 0
     for s in range(2 if not thorough else 12):
@@ -269,13 +274,14 @@ def cases(tier, seed):
     k = 0
     for rep in range(2 * reps):
         for builder in ("planewave", "probe"):
-            for tmode in ("xdist", "pairs", "xydist"):
+            for tmode in ("xdist", "pairs", "xydist", "scalar", "ydist-only"):
                 r = rng_for(seed, "C03", "chain", k)
                 k += 1
                 lens = _lengths(r, 3)
                 nm = ["defocus", "C30", "focal_spread"][k % 3]
-                yield dict(family="chain", builder=builder, tilt=_tilt_spec(r, tmode, lens[:2]),
-                           params={nm: _dspec(r, nm, lens[2], "array"), "semiangle_cutoff": 30.0}, atoms="si",
+                ctf = {nm: _dspec(r, nm, lens[2], "array")} if tmode != "ydist-only" else {nm: _values(r, nm, 1)[0]}
+                yield dict(family="chain", builder=builder, tilt=_tilt_spec(r, tmode.split("-")[0], lens[:2]),
+                           params={**ctf, "semiangle_cutoff": 30.0}, atoms="si",
                            atoms_seed=int(r.integers(1000)), height=float(r.uniform(4.0, 8.0)), slice_thickness=2.0,
                            weighted=False, averaged=False, **_grid(r))
     # (f) ensemble means
@@ -382,7 +388,7 @@ def _match_axes(axes, wanted):
                 if hasattr(ax, "tilt") and not hasattr(ax, "direction") and _veq(np.array(ax.values, float), vals):
                     hit = i
             elif kind == "positions":
-                if hasattr(ax, "values") and _veq(np.array(ax.values, float).reshape(np.shape(vals)), vals, 2e-6):
+                if hasattr(ax, "values") and np.shape(np.array(ax.values, float)) == np.shape(vals) and _veq(np.array(ax.values, float), vals, 2e-6):
                     hit = i
             elif kind == "scan":
                 if hasattr(ax, "sampling") and hasattr(ax, "offset") and _veq(np.array(ax.coordinates(len(vals)), float), vals, 2e-6):
@@ -458,17 +464,15 @@ def _mean_check(got, stack, lens_keys, dists, tol=TOL):
     else:
         n = int(np.prod([stack.shape[i] for i in avg]))
         for pw in (1, 2):
-            om = np.ones(())
             full = np.ones([1] * stack.ndim)
             for i in avg:
                 shp = [1] * stack.ndim
                 shp[i] = stack.shape[i]
                 full = full * (dists[keys[i]].weights ** pw).reshape(shp)
             num = (full * stack).sum(axis=tuple(avg))
-            tot = float(np.broadcast_to(full, stack.shape[: len(keys)] + (1,) * (stack.ndim - len(keys))).sum(axis=tuple(avg)).ravel()[0])
+            tot = float(full.sum())  # sum over the averaged axes of the product weights
             for nm, den in (("sum", tot), ("n", float(n)), ("1", 1.0)):
                 cands[f"om=w^{pw},N={nm}"] = num / den
-        del om
     got = np.asarray(got)
     best, bdet = None, ""
     for nm, ref in cands.items():
@@ -508,7 +512,7 @@ def _input_waves(case):
     def make(lazy):
         arr = a.copy()
         if lazy:
-            arr = da.from_array(arr, chunks=((1,) * n if n else ()) + gpts) if n else da.from_array(arr, chunks=gpts)
+            arr = da.from_array(arr, chunks=((1,) if n else ()) + gpts)
         return abtem.Waves(arr, energy=case["energy"], extent=extent, ensemble_axes_metadata=list(axes))
 
     return make
@@ -770,7 +774,7 @@ def _run_chain(case):
         else:
             w = abtem.PlaneWave(energy=energy, tilt=tilt).multislice(pot, lazy=False)
         w = w.apply_ctf(abtem.CTF(energy=energy, **kwargs))
-        return w.multislice(pot, lazy=False)
+        return w.multislice(pot)
 
     res = simulate({**scal, **{k: d.obj for k, d in dist.items()}}, targ)
     alld = {**tdists, **dist}
